@@ -51,7 +51,8 @@ type HarnessSpec struct {
 	Replay     string   `json:"replay"` // "direct" (default) | "none"
 	Note       string   `json:"note"`
 	ReplayRepeat int    `json:"replay_repeat"`
-	NativeRace bool     `json:"native_race"` // native replays run under go test -race // native stress iterations for schedule-dependent counterexamples
+	NativeRace bool     `json:"native_race"`
+	NativeQuiesceMs int `json:"native_quiesce_ms"` // native grace period of vrtWaitQuiescent // native replays run under go test -race // native stress iterations for schedule-dependent counterexamples
 }
 
 type PropSpec struct {
